@@ -1,11 +1,11 @@
 CONFIG = {
-    "id": "C03",
-    "coq_targets": ["Props/C03.v", "Model/SimCheck.v"],
-    "prop_files": ["Props/C03.v"],
+    "id": "C09",
+    "coq_targets": ["Props/C09.v", "Model/SimCheck.v"],
+    "prop_files": ["Props/C09.v"],
     "gen": [],
     "components": [{
         "name": "sim", "modules": ["Base.NumOps", "Model.Turn", "Model.Sim", "Model.SimCheck"],
-        "check": "check_case", "monitor": "monitor_c03", "model_out": "monitor_detail",
+        "check": "check_case", "monitor": "monitor_c09", "model_out": "monitor_detail",
         "case_type": "case", "ops_path": None, "mismatch_is_violation": False,
         "n_quick": 300, "n_thorough": 12000, "shard": 100,
     }],
@@ -24,13 +24,10 @@ CONFIG = {
                 "the turn manager part is Model/Turn.v at binary64 (property C02)"],
     "assumptions": ["content uses the engine API legally: qualified attacks and EndAttack only from action / ult / insert bodies"],
     "manifest": {
-        "level_text": "Kernel-checked theorem: every terminated run of the executable whole-simulation model (all configs, all "
-                      "content scripts, all decision sequences, all fuel) produces a trace accepted by the lifecycle-protocol "
-                      "stack automaton; the model's complete trace and result are compared exactly with the real simulator on "
-                      "generated scripted battles, and the automaton is also run as a monitor on the real traces.",
+        "level_text": "Kernel-checked theorems about the model: the exit check's decision (loss, else win, else timeout iff floor(clock/100) >= limit, else continue), that every returned run stopped at an exit check with Termination as its one and last event carrying the clock that is the result's total action value, and the hit subscriber's bookkeeping (side totals grow by exactly the hit's damage, both per-cycle series keep equal length, current cycle entry = running total). That the totals equal the sums of all hits in log order and that the series are non-decreasing is checked by the trace monitor on every real run (float summation order of nested hits makes the log-order sum a statement over the reals, not binary64) (partial).",
         "level_note": "Coq kernel; hand-written model Model/Sim.v tied by whole-trace correspondence; content is scripted harness "
                       "content registered through the exported Register functions; internal/* content is not modelled.",
-        "technique": "Coq proof (Hoare-style segment lemmas against a protocol automaton) + correspondence + trace monitor",
-        "design_ref": "DESIGN.md section 7, C03",
+        "technique": 'Coq proofs (exit decision, stop provenance, hit bookkeeping) + whole-trace correspondence + result monitor',
+        "design_ref": "DESIGN.md section 7, C09",
     },
 }
